@@ -10,7 +10,7 @@
    check_history, model function [replay]) and by the harness oracle, not proved. *)
 From Coq Require Import List ZArith NArith Bool.
 Import ListNotations.
-Require Import RV.Model.C03_Ledger RV.Proof.C03_Ledger RV.Proof.C03_NF RV.Proof.C04_Inv.
+Require Import RV.Model.C03_Ledger RV.Proof.C03_Ledger RV.Proof.C03_NF RV.Proof.C04_Inv RV.Proof.C04_NonNeg.
 Open Scope Z_scope.
 
 Theorem C04_supply_invariant :
@@ -38,6 +38,18 @@ Proof. exact step_total_full. Qed.
 Theorem C04_xrd_untracked_preserved : forall s o s' evs, step s o = Ok (s', evs) -> xrd_ok s -> xrd_ok s'.
 Proof. exact step_xrd_ok. Qed.
 
+(* no fungible vault balance, bucket amount or locked fee is ever negative: inductive invariant NN *)
+Theorem C04_balances_nonneg :
+  NN genesis
+  /\ (forall s o s' evs, NN s -> step s o = Ok (s', evs) -> op_ok o -> NN s')
+  /\ (forall ops s s' evs, NN s -> run s ops = Ok (s', evs) -> Forall op_ok ops ->
+        forall v r bal, aget v (s_fv s') = Some (r, bal) -> 0 <= bal).
+Proof.
+  split; [constructor; constructor|]. split; [exact step_NN|].
+  intros ops s s' evs I H OK v r bal G. pose proof (run_NN _ _ _ _ I H OK) as [F _ _].
+  exact (Forall_aget _ _ _ _ F G).
+Qed.
+
 (* no fungible balance produced by take is negative: take_by_amount refuses to go below zero *)
 Theorem C04_take_nonneg : forall l k a l' r0,
   f_take l k a = Ok (l', r0) -> exists bal, aget k l = Some (r0, bal) /\ a <= bal /\ l' = aset k (r0, bal - a) l.
@@ -60,3 +72,4 @@ Qed.
 Print Assumptions C04_supply_invariant.
 Print Assumptions C04_history_supply_invariant.
 Print Assumptions C04_step_total.
+Print Assumptions C04_balances_nonneg.
